@@ -341,15 +341,17 @@ def c08_hist_compare(ir, mr):
     return True
 
 
-def retrying_compare(kind, oracle1):
+def retrying_compare(kind, oracle1, base=None):
     """Real-clock kinds: a live entry can be lost early for reasons outside C08 (the double release of a cacheEntry
     described in docs/notes/C08.md obs. 5 hits unrelated keys of the same process; otter's ticker goroutine can be
     starved on a loaded machine). A miss is always allowed by the property, but it is not what the model predicts.
     A mismatching case whose result passes the property oracle is therefore re-run
     (implementation side only) up to twice and accepted when a re-run matches the model. A result that fails the
     property oracle is never re-run: the oracle is evaluated on the first result by bin/check."""
+    base = base or c08_hist_compare
+
     def cmp(ir, mr):
-        if c08_hist_compare(ir, mr):
+        if base(ir, mr):
             return True
         line = _LAST.get(kind)
         if not line or ir.startswith("HARNESS-ERROR"):
@@ -369,7 +371,7 @@ def retrying_compare(kind, oracle1):
                 return False
             if oracle1(line, res) is not None:
                 return False
-            if c08_hist_compare(res, mr):
+            if base(res, mr):
                 print("C08 %s: case %s matched the model on re-run %d (first result: %s)" % (
                     kind, line.split(" ")[0], attempt + 1, ir), file=sys.stderr)
                 return True
@@ -857,6 +859,195 @@ def c08_redisneg_classify(line, res):
     return "%s rcode%d %s" % (cfg, first_err, ",".join(sorted(kinds)))
 
 
+# ---------------- rediscmd (round 6): the SET command the redis tier sends, and a lookup after the lifetime
+import re as _re
+
+_CMD = _re.compile(r"^([se])\{(SETNX|SET|none)(?::(nopx|\d+))?\}$")
+
+
+def parse_cops(s):
+    ops = parse_nops(s)
+    for op, tok in zip(ops, s.split(",")):
+        if op["k"] == "v":
+            op["ms"] = int(tok.split(".")[2])
+    return ops
+
+
+def c08_rediscmd_oracle(line, res):
+    _LAST["rediscmd"] = line
+    return c08_rediscmd_oracle1(line, res)
+
+
+def c08_rediscmd_oracle1(line, res):
+    """independent of the model: (1) the command the server received for every Store: a SET; NX iff the response is an
+    error response; a PX, not above the lifetime of the property's table (30 s NXDOMAIN / record-less, 5 s other errors,
+    1 s SERVFAIL, smallest TTL for NOERROR with records, all capped by the configured maximum); (2) lookups, on the server's clock: nothing is served lifetime + 2 s or later after its fetch"""
+    if res.startswith("HARNESS-ERROR"):
+        return None
+    f = gens.fields(line)
+    ops = parse_cops(f["ops"])
+    toks = res.split(" ")
+    if len(toks) != len(ops):
+        return None
+    mx = int(f["maxttl"])
+    skew = 0
+    eff = []
+    for op in ops:
+        eff.append(op["at"] + skew)
+        if op["k"] == "v":
+            skew += op["ms"]
+    for i, (op, tok) in enumerate(zip(ops, toks)):
+        if op["k"] in ("s", "e"):
+            m = _CMD.match(tok)
+            if not m:
+                return "store #%d: unreadable command token %s" % (i, tok)
+            L = prop_lifetime_ms(mx, op["rcode"], op["ttls"])
+            verb, px = m.group(2), m.group(3)
+            if verb == "none":
+                return "store #%d (rcode %d, lifetime %d ms): no SET reached the redis server" % (i, op["rcode"], L)
+            if (verb == "SETNX") != (op["rcode"] != 0):
+                return "store #%d (rcode %d): sent as %s; set-if-absent is for error responses and only for them" % (
+                    i, op["rcode"], verb)
+            if px == "nopx":
+                return ("store #%d (rcode %d): %s without PX: the entry never expires in redis although its lifetime is "
+                        "%d ms" % (i, op["rcode"], verb, L))
+            if int(px) > L:
+                return "store #%d (rcode %d): PX %s ms exceeds the lifetime %d ms of the table" % (i, op["rcode"], px, L)
+            # (no lower bound here: the table of the property only bounds lifetimes from above; an error response with a
+            #  small record TTL legitimately lives shorter.  The exact value is the model comparison's business.)
+        if op["k"] == "g" and tok.startswith("H"):
+            src = int(tok[1:].split(":")[0])
+            if not (0 <= src < i) or ops[src]["k"] not in ("s", "e") or ops[src]["key"] != op["key"]:
+                return "get #%d served a message nobody stored for this key (%s)" % (i, tok)
+            so = ops[src]
+            L = prop_lifetime_ms(mx, so["rcode"], so["ttls"])
+            late = eff[i] - eff[src] - L
+            if late - SLACK >= 2000:
+                return ("get #%d (%d ms after the fetch on the redis server's clock) was served the rcode-%d answer of "
+                        "op #%d, whose lifetime is %d ms: %d ms after its end (2 s allowance)" % (
+                            i, eff[i] - eff[src], so["rcode"], src, L, late))
+    return None
+
+
+def c08_rediscmd_compare(ir, mr):
+    """PX is lifetime - (time between cacheCtl.Store's clock reading and AsyncStore's), cut to ms: the model assumes 1 us,
+    the real run may take up to a few ms: the implementation's PX may be up to 60 ms below the model's"""
+    a, b = ir.split(" "), mr.split(" ")
+    if len(a) != len(b):
+        return False
+    out = []
+    for x, y in zip(a, b):
+        mx_, my = _CMD.match(x), _CMD.match(y)
+        if mx_ and my and mx_.group(1, 2) == my.group(1, 2) and mx_.group(3) and my.group(3) and \
+                mx_.group(3) != "nopx" and my.group(3) != "nopx" and int(my.group(3)) - 60 <= int(mx_.group(3)) <= int(my.group(3)) + 1:
+            out.append(y)
+        else:
+            out.append(x)
+    return c08_hist_compare(" ".join(out), mr)
+
+
+RCMD_TTLS = [[0], [1], [5, 60], [60], [300, 7], [86400], [4294967295], [21599, 21601]]
+
+
+def c08_rediscmd_gen(rng, tier):
+    """one Store per case through the real cacheCtl (redis-only / memory + redis; maximum_ttl default / 2 s / 40 s):
+    NOERROR with records (TTL 0, 1, .., 2^32-1), NOERROR without records, every error rcode 1..15 with and without
+    records; the command is read at the fake server; a lookup 0.3 s later; then the SERVER's clock jumps lifetime + 2.5 s
+    ahead (the memory copy, if any, is dropped) and a lookup must miss; then one hour more, and again.  ~1 s per case."""
+    out = []
+    n = budget(tier, 56, 600)
+    for c in range(n):
+        # 24 answer classes x 2 configurations first (48 cases: all of them are in the quick tier), then random ones
+        j = c % 24 if c < 96 else rng.randrange(24)
+        mem = (c // 24) % 2
+        maxttl = [0, 2, 40, 0][(c // 48 + j) % 4] if c < 96 else rng.choice([0, 0, 1, 2, 40, 86400])
+        if j < 8:
+            rc, ttls = 0, RCMD_TTLS[j]
+        elif j == 8:
+            rc, ttls = 0, []
+        else:
+            rc = j - 8                                     # 1..15
+            ttls = rng.choice([[], [], [3], [300, 20], [0]])
+        L = prop_lifetime_ms(maxttl, rc, ttls)
+        st = ("s.0.1.%s" % ("_".join(map(str, ttls)) or "x")) if rc == 0 else \
+             ("e.0.1.%d.%s" % (rc, "_".join(map(str, ttls)) or "x"))
+        ops = [st, "g.300.1"]
+        if mem:
+            ops.append("x.450.1")
+        ops += ["v.550.%d" % (L + 2500 - 650), "g.650.1", "v.750.3600000", "g.850.1"]
+        out.append("rc%d maxttl=%d mem=%d cmd=1 ops=%s" % (c, maxttl, mem, ",".join(ops)))
+    return out
+
+
+def c08_rediscmd_classify(line, res):
+    f = gens.fields(line)
+    op = parse_cops(f["ops"])[0]
+    cls = "noerror+rr" if op["rcode"] == 0 and op["ttls"] else "noerror-empty" if op["rcode"] == 0 else \
+          "servfail" if op["rcode"] == 2 else "nxdomain" if op["rcode"] == 3 else "other-error"
+    return "%s %s max=%s %s" % ("memory+redis" if f["mem"] == "1" else "redis-only", cls, f["maxttl"],
+                                res.split(" ")[0].split("{")[-1].split(":")[0].rstrip("}"))
+
+
+# ---------------- refresherr (round 6): a refresh answered with an error while the positive entry is live, both tiers
+REFRESH_CFGS = [("1", "0", "m"), ("0", "1", "r"), ("1", "1", "mr"), ("1", "1", "r")]
+
+
+def c08_refresh_gen(rng, tier):
+    """a real router (memory-only / redis-only / memory + redis with the entry in both tiers / memory + redis with the entry
+    only in redis) holds a positive answer fetched 7-9 s ago with 1.9 s left (every hit is in the refresh window); the
+    upstream answers every (refresh) query with an error rcode 1..15, with or without records; three client queries at
+    +0.1 .. +0.7 s.  < 1 s per case (+ 1.1 s for the redis ping loop), run in parallel."""
+    out = []
+    for c in range(budget(tier, 20, 240)):
+        mem, red, place = REFRESH_CFGS[c % 4]
+        rc = 1 + (c // 4 * 4 + c % 4 * 5 + c // 16) % 15 if c >= 4 else [2, 3, 5, 2][c]
+        # entry only in redis + a memory backend: the first hit promotes it with the instants cut to whole seconds, so up
+        # to 1 s of its lifetime is lost in the memory tier: leave 2.9 s, so that the promoted copy surely outlives the case
+        # (otherwise its early expiry + cleanup would open the cross-tier gap of observation 6, which is not this class)
+        remain = 2900 if (place == "r" and mem == "1") else 1900
+        out.append("rf%d mem=%s redis=%s place=%s rcode=%d ettl=%s age=%d remain=%d qs=100_%d_%d" % (
+            c, mem, red, place, rc, rng.choice(["x", "x", "7", "0_300"]), rng.choice([3 * remain + 1300, 3 * remain + 1700, 9000]),
+            remain, rng.choice([300, 350, 400]), rng.choice([600, 650, 700])))
+    return out
+
+
+def c08_refresh_oracle(line, res):
+    """every client query arrives while the positive answer is alive (>= 1.2 s before its expireTime): it must be served that
+    positive answer (aged), whatever the refresh running in the background was answered: an error response never displaces
+    a live positive entry"""
+    if not res.startswith("up="):
+        return None
+    f = gens.fields(line)
+    toks = res.split(" ")[1:]
+    ats = [int(x) for x in f["qs"].split("_")]
+    if len(toks) != len(ats):
+        return None
+    age, remain = int(f["age"]), int(f["remain"])
+    for i, (at, tok) in enumerate(zip(ats, toks)):
+        if at + SLACK > remain - 1000:
+            continue
+        rc, ttl_s = tok.split(":") if ":" in tok else (tok, "")
+        if rc != "0":
+            return ("query #%d at +%d ms was answered rcode %s although the positive answer in the cache had %d ms of its "
+                    "%d ms lifetime left: the error response of the refresh (rcode %s) displaced a live positive entry" % (
+                        i, at, rc, remain - at, age + remain, f["rcode"]))
+        got = [int(x) for x in ttl_s.split("_")] if ttl_s else []
+        if len(got) != 2:
+            return "query #%d: served %s, expected the two cached A records" % (i, tok)
+        dmin = max(0, (at + age - SLACK) // 1000)
+        for t0, t1 in zip([60, 300], got):
+            if t1 > max(1, t0 - dmin):
+                return "query #%d: served TTL %d > max 1 (%d - %d whole seconds since the fetch)" % (i, t1, t0, dmin)
+    return None
+
+
+def c08_refresh_classify(line, res):
+    f = gens.fields(line)
+    cfg = {"m": "memory-only", "r": "redis-only" if f["mem"] == "0" else "memory+redis(entry in redis)", "mr": "memory+redis"}[f["place"]]
+    up = res.split(" ")[0]
+    return "%s refreshes=%s" % (cfg, "0" if up == "up=0" else ">=1")
+
+
 # ---------------- routerhist (real router, real upstream over TCP, scripted upstream server)
 BEH_L = dict(nx=30000, nd=30000, sf=1000, rf=5000)
 
@@ -1019,6 +1210,11 @@ PROPS["C08"] = dict(
         dict(name="promote", gen=c08_promote_gen, oracle=c08_promote_oracle, classify=c08_promote_classify,
              compare=retrying_compare("promote", c08_promote_oracle1),
              nontrivial=lambda l, r: "H" in r, timeout=900),
+        dict(name="rediscmd", gen=c08_rediscmd_gen, oracle=c08_rediscmd_oracle, classify=c08_rediscmd_classify,
+             compare=retrying_compare("rediscmd", c08_rediscmd_oracle1, c08_rediscmd_compare),
+             nontrivial=lambda l, r: "{SET" in r, timeout=900),
+        dict(name="refresherr", gen=c08_refresh_gen, oracle=c08_refresh_oracle, classify=c08_refresh_classify, model=False,
+             nontrivial=lambda l, r: r.startswith("up=") and not r.startswith("up=0 "), timeout=900),
         dict(name="redisneg", gen=c08_redisneg_gen, oracle=c08_redisneg_oracle, classify=c08_redisneg_classify,
              compare=retrying_compare("redisneg", c08_redisneg_oracle1),
              nontrivial=lambda l, r: "H" in r, timeout=900),
@@ -1040,7 +1236,13 @@ PROPS["C08"] = dict(
          "2 s after it and later; model event EvStoreAt. promote: the real cacheCtl with memory + redis backend (in-process "
          "RESP2 fake): own stores whose memory copy is dropped late in the lifetime and answers another instance fetched up "
          "to a year ago, read back through cacheCtl.Get (redis hit, promotion), probed after fetch + lifetime + 2 s; model "
-         "Cache/CacheTier.v over 20 ticker phases x 40 Unix-second phases. distinct = distinct case line",
+         "Cache/CacheTier.v over 20 ticker phases x 40 Unix-second phases. rediscmd: one Store per answer class (NOERROR with / "
+         "without records, every error rcode, with / without records; redis-only and memory + redis; maximum_ttl default / "
+         "2 s / 40 s): the SET command as the fake redis server received it (NX flag, PX value) against the model's "
+         "ct_store_cmd, then lookups after the server's (virtual) clock jumped past lifetime + 2 s and one hour more. "
+         "refresherr: a real router whose cache (memory-only / redis-only / both) holds a positive answer in its refresh "
+         "window while the upstream answers every refresh with an error rcode; three client queries must all be served the "
+         "positive answer (oracle only). distinct = distinct case line",
     assumptions=["otter clock model (see trusted base); cachehist ops are scheduled >= 200 ms away from whole-second "
                  "distances to the stores they depend on, and a case whose ops ran > 150 ms late is re-run once, then "
                  "reported as a harness note, never as an alarm; a real-clock case that passes the property oracle but "
